@@ -79,6 +79,11 @@ type httpResult struct {
 	Levels []string            `json:"levels"`
 	Counts map[string]int      `json:"counts"`
 	Tables map[int][][3]uint64 `json:"tables,omitempty"` // per split write: (old label, inside split volume 0/1, new label)
+	// body splits whose request is outside the contract (empty split volume, or the whole body):
+	// they have to be refused and change nothing
+	Illegal map[int]bool `json:"illegal,omitempty"`
+	// histories with other steps than raw writes: the levels read back after every step
+	StepLevels [][]string `json:"step_levels,omitempty"`
 }
 
 // runHTTP plays one history against an in-process DVID.  It runs in a child process of the driver:
@@ -108,6 +113,7 @@ func runHTTP(c jcase) (res httpResult) {
 		os.Exit(2)
 	}
 	res.Tables = map[int][][3]uint64{}
+	res.Illegal = map[int]bool{}
 	readWin := func(node string, body bool) []uint64 {
 		q := "supervoxels=true"
 		if body {
@@ -199,6 +205,21 @@ func runHTTP(c jcase) (res httpResult) {
 					}
 				}
 			}
+			nSplit, nLabel := 0, 0
+			for _, r := range rles {
+				nSplit += int(r.Length())
+			}
+			for _, l := range of {
+				if l == w.Label {
+					nLabel++
+				}
+			}
+			// SplitLabels refuses an empty split volume and one that takes the whole body;
+			// SplitSupervoxel accepts both (the supervoxel is then renamed as a whole)
+			if w.Via == "bodysplit" && (nSplit == 0 || nSplit >= nLabel) {
+				res.Illegal[i] = true
+				res.Counts["http:"+w.Via+":outside-contract"]++
+			}
 			buf := new(bytes.Buffer)
 			buf.WriteByte(dvid.EncodingBinary)
 			binary.Write(buf, binary.LittleEndian, uint8(3))
@@ -279,6 +300,13 @@ func runHTTP(c jcase) (res httpResult) {
 		}
 		return 1
 	}
+	readLevels := func(node string) []string { return readLevelsOf(c, node, name, wd) }
+	hist := false
+	for _, w := range c.Writes {
+		if w.Via != "" {
+			hist = true
+		}
+	}
 	var status []uint64
 	failed := false
 	for i := 0; i < len(c.Writes) && !failed; {
@@ -320,7 +348,7 @@ func runHTTP(c jcase) (res httpResult) {
 		for q, st := range gres {
 			status = append(status, st)
 			res.Counts[fmt.Sprintf("http:write-status-class:%d", st)]++
-			if st != 0 && !(st == 1 && !c.Writes[i+q].legal()) {
+			if st != 0 && !(st == 1 && (!c.Writes[i+q].legal() || res.Illegal[i+q])) {
 				failed = true
 			}
 		}
@@ -330,9 +358,23 @@ func runHTTP(c jcase) (res httpResult) {
 				failed = true
 			}
 		}
+		if hist && !failed {
+			lv := readLevels(uuid)
+			for range gres {
+				res.StepLevels = append(res.StepLevels, lv)
+			}
+		}
 	}
 	var levels []string
 	if !failed {
+		levels = readLevels(uuid)
+	}
+	res.Status, res.Levels = status, levels
+	return
+}
+
+func readLevelsOf(c jcase, uuid, name string, wd [3]int) (levels []string) {
+	{
 		n := wd
 		off := c.Win
 		for k := 0; k <= c.Max; k++ {
@@ -352,7 +394,6 @@ func runHTTP(c jcase) (res httpResult) {
 			}
 		}
 	}
-	res.Status, res.Levels = status, levels
 	return
 }
 
@@ -519,7 +560,7 @@ func main() {
 					for _, e := range res.Tables[i] {
 						es = append(es, fmt.Sprintf("(%d,%d,%d)", e[0], e[1], e[2]))
 					}
-					ws[i] = fmt.Sprintf("(WRelabel %v %s %s [%s])", !w.NoDown, pos, blk.CoqPaints(w.Paints), strings.Join(es, ";"))
+					ws[i] = fmt.Sprintf("(WRelabel %v %v %s %s [%s])", !w.NoDown, !res.Illegal[i], pos, blk.CoqPaints(w.Paints), strings.Join(es, ";"))
 				}
 				run.Count("http:via:" + map[string]string{"": "raw"}[w.Via] + w.Via)
 			}
@@ -527,8 +568,12 @@ func main() {
 		term := fmt.Sprintf("(CHttp %d [%s] %s %s %s (%d,%d,%d) %s [%s])", c.Max, strings.Join(ws, "; "), lib.CoqZ(int64(c.Win[0])), lib.CoqZ(int64(c.Win[1])), lib.CoqZ(int64(c.Win[2])),
 			wd[0], wd[1], wd[2], lib.CoqNList(status), strings.Join(levels, "; "))
 		if hist {
+			sl := make([]string, len(res.StepLevels))
+			for i, lv := range res.StepLevels {
+				sl[i] = "[" + strings.Join(lv, "; ") + "]"
+			}
 			term = fmt.Sprintf("(CHist %d (%d,%d,%d) [%s] %s %s %s (%d,%d,%d) %s [%s])", c.Max, bs[0], bs[1], bs[2], strings.Join(ws, "; "),
-				lib.CoqZ(int64(c.Win[0])), lib.CoqZ(int64(c.Win[1])), lib.CoqZ(int64(c.Win[2])), wd[0], wd[1], wd[2], lib.CoqNList(status), strings.Join(levels, "; "))
+				lib.CoqZ(int64(c.Win[0])), lib.CoqZ(int64(c.Win[1])), lib.CoqZ(int64(c.Win[2])), wd[0], wd[1], wd[2], lib.CoqNList(status), strings.Join(sl, "; "))
 		}
 		run.Count(fmt.Sprintf("http:blocksize:%dx%dx%d", bs[0], bs[1], bs[2]))
 		neg := "nonneg"
@@ -851,11 +896,20 @@ func main() {
 		if i%2 == 1 {
 			first, second = second, first
 		}
+		// the second split volume lies right of x = cut (inside the second block); now and then it is
+		// empty, or the whole of what is left (requests a split has to refuse / may accept)
+		cut := 16
+		if x1 > 25 && rng.Bool() {
+			cut = 24
+		}
+		if rng.Chance(0.15) {
+			cut = 32
+		}
 		mid := [3]int{win[0] + x1 - 1, win[1] + y1 - 1, win[2] + z1 - 1} // a voxel of the remaining part
 		ws := []jwrite{ing,
 			{Via: first, Label: 7, Off: win, Size: hwd, Paints: []blk.Paint{blk.Box(m1, 1)}},
 			{Via: second, At: &mid, Off: win, Size: hwd, NoDown: second == "svsplit" && rng.Chance(0.2),
-				Paints: []blk.Paint{blk.Box([6]int{x0, y0, z0, x1, y0 + 1 + rng.Intn(y1-y0), z1}, 1), blk.Box([6]int{0, 0, 0, 16 + 8*rng.Intn(2), 16, 16}, 0)}}}
+				Paints: []blk.Paint{blk.Box([6]int{x0, y0, z0, x1, y0 + 1 + rng.Intn(y1-y0), z1}, 1), blk.Box([6]int{0, 0, 0, cut, 16, 16}, 0)}}}
 		addHTTP(jcase{Kind: "http", Max: 1 + rng.Intn(2), Win: win, WD: hwd, Writes: ws})
 	}
 	// (c) two-step histories: a uniform region first (solid stored parents at every level), then partial
